@@ -125,21 +125,27 @@ namespace rkcommon {
     inline IntrusivePtr<T> &IntrusivePtr<T>::operator=(
         const IntrusivePtr &input)
     {
-      if (input.ptr)
-        input.ptr->refInc();
+      // NOTE: 'input' may be owned by the object we release (node = node->next),
+      //       so it must not be touched after refDec()
+      T *const newPtr = input.ptr;
+      if (newPtr)
+        newPtr->refInc();
       if (ptr)
         ptr->refDec();
-      ptr = input.ptr;
+      ptr = newPtr;
       return *this;
     }
 
     template <typename T>
     inline IntrusivePtr<T> &IntrusivePtr<T>::operator=(IntrusivePtr &&input)
     {
-      if (ptr)
-        ptr->refDec();
+      // NOTE: take over 'input' before releasing our object, which may own
+      //       'input' (node = std::move(node->next))
+      T *const oldPtr = ptr;
       ptr = input.ptr;
       input.ptr = nullptr;
+      if (oldPtr)
+        oldPtr->refDec();
       return *this;
     }
 
